@@ -970,6 +970,20 @@ pub fn gen_pool(master: u64, job: u64, tier: Tier) -> Pool {
         }
         files.push(Arc::new(workload::gen_file(&mut rng, sc).file));
     }
+    if job % 2 == 0 {
+        // a file that begins directly with a member: its signature sits in the first bytes of the
+        // buffer (where word-at-a-time scanners have their unaligned prefix)
+        let plain = workload::gen_plaintext(&mut rng, 1500);
+        let raw = workload::Compressor::random(&mut rng).compress(&plain);
+        let w = match rng.below(3) {
+            0 => workload::Wrapper::Zlib(rng.below(4) as u8),
+            1 => workload::Wrapper::Gzip(0),
+            _ => workload::Wrapper::Zip(5, 0),
+        };
+        let mut f = workload::wrap(&mut rng, &w, &raw, &plain);
+        f.extend_from_slice(b" trailing bytes after the member ");
+        files.push(Arc::new(f));
+    }
     let mut streams = Vec::new();
     for _ in 0..ns {
         let (_c, _p, raw) = workload::gen_stream(&mut rng, 600, sc.max_plain);
@@ -1462,6 +1476,50 @@ impl Engine for SchedEngine {
         }
         res.evaluations += 1;
 
+        // --- address independence: the same bytes at every alignment of the buffer start
+        for (i, f) in pool.files.iter().enumerate() {
+            let want = &reference.outputs[reference.index(CallKind::Expand(i as u8))];
+            for off in 1..8usize {
+                let mut buf = vec![0xA5u8; off + f.len() + 8];
+                buf[off..off + f.len()].copy_from_slice(f);
+                let view = &buf[off..off + f.len()];
+                let got = match catch_unwind(AssertUnwindSafe(|| preflate_rs::expand_zlib_chunks(view, 0))) {
+                    Ok(Ok(b)) => CallOutput::Ok(b),
+                    Ok(Err(e)) => CallOutput::Err(e.exit_code().as_integer_error_code()),
+                    Err(_) => {
+                        let _ = util::take_last_panic();
+                        CallOutput::Panic
+                    }
+                };
+                res.steps += 1;
+                res.bump("probe.unaligned_input_views");
+                if got != *want && res.violations.is_empty() {
+                    let plan = SchedPlan {
+                        threads: vec![vec![CallKind::Expand(i as u8)]],
+                        policy: Policy::Stay,
+                        seed: off as u64,
+                        decim: 1,
+                        explicit: None,
+                    };
+                    let mut doc = replay_doc(&pool, gen, &plan);
+                    doc.put("pool", pool_to_json(&pool));
+                    doc.put("mode", J::str("alignment"));
+                    res.violations.push(Violation {
+                        clause: "address_dependent_result".into(),
+                        key: format!("address_dependent_result:expand:{:016x}", ph),
+                        what: format!(
+                            "expand_zlib_chunks returns {} for the same bytes when the slice starts {} byte(s) after an aligned address, but {} for the aligned copy",
+                            got.describe(),
+                            off,
+                            want.describe()
+                        ),
+                        replay: doc,
+                    });
+                }
+            }
+        }
+        res.evaluations += 1;
+
         // --- scheduled executions
         let nexec = match ctx.tier {
             Tier::Quick => 12,
@@ -1641,6 +1699,33 @@ impl Engine for SchedEngine {
                         }
                     }
                     Err(e) => bad(e),
+                }
+            }
+            "alignment" => {
+                for (i, f) in pool.files.iter().enumerate() {
+                    let want = &reference.outputs[reference.index(CallKind::Expand(i as u8))];
+                    for off in 1..8usize {
+                        let mut buf = vec![0xA5u8; off + f.len() + 8];
+                        buf[off..off + f.len()].copy_from_slice(f);
+                        let view = &buf[off..off + f.len()];
+                        let got = match catch_unwind(AssertUnwindSafe(|| preflate_rs::expand_zlib_chunks(view, 0))) {
+                            Ok(Ok(b)) => CallOutput::Ok(b),
+                            Ok(Err(e)) => CallOutput::Err(e.exit_code().as_integer_error_code()),
+                            Err(_) => CallOutput::Panic,
+                        };
+                        if got != *want {
+                            return ReplayOutcome {
+                                clause: Some("address_dependent_result".into()),
+                                digest: 0,
+                                detail: format!("expand_zlib_chunks depends on the alignment of its input (offset {})", off),
+                            };
+                        }
+                    }
+                }
+                ReplayOutcome {
+                    clause: None,
+                    digest: 0,
+                    detail: "results identical at all 8 alignments".into(),
                 }
             }
             "repeat" => {
